@@ -15,6 +15,7 @@ from vf import gen as G, model as M, oracle as O, snapshot as S
 from vf.checks.common import Case, call, exc_text
 
 ID = "C19"
+TECHNIQUE = "runtime monitoring: reference-model monitor on composite constructors over all permutations of the member list"
 LEVEL = "exploration"
 RULE = ("valid lists generated nested / pairwise disjoint by construction and re-validated exactly for polygons: outer region "
         "(or none, unbounded) with 1-3 holes for ConnectedShape; 2-3 components, some with holes, for DisjointShape; polygons "
